@@ -53,6 +53,7 @@ def remove_seam():
 
 
 MAXK = 4
+LAST_REF = [None]
 
 
 def sig(rs):
@@ -122,6 +123,7 @@ def judge_pair(st, lang, x, y, src, seen_sets):
     if ref:
         st.count('pairs_with_results')
     st.observe(lang, sx, sy, ref)
+    LAST_REF[0] = ref
     # seen-rule filtering: unrestricted result when the erased pair is in the set, else []
     ex, ey = SC.erase(x, ('X', 'nb')), SC.erase(y, ('X', 'nb'))
     for name, S_ in seen_sets:
@@ -166,12 +168,32 @@ def _unkey(k):
     return K.Atom(k[1], K.UnaryFeature(f[1]) if f[0] == 'U' else K.TernaryFeature(*f[1:]))
 
 
+def _reverse_sigs(arg):
+    lang, a, b, lo, hi, tier = arg
+    fn = en.apply_binary_rules if lang == 'en' else ja.apply_binary_rules
+    S_ = SOURCES(tier)[lang]
+    out = {}
+    pairs = [(x, y) for x in S_[a][lo:hi] for y in S_[b]]
+    for i in range(len(pairs) - 1, -1, -1):
+        x, y = pairs[i]
+        try:
+            out[i] = sig(fn(x, y))
+        except Exception as e:
+            out[i] = repr(e)
+    st = core.Stats()
+    st.notes = [out[i] for i in range(len(pairs))]
+    st.sets['sigs'].add(1)
+    return st
+
+
 def judge_unary(st, lang, x, others):
     fn = en.apply_unary_rules if lang == 'en' else ja.apply_unary_rules
     t1 = K.P('NP\\NP') if lang == 'en' else K.P('NP[case=nc,mod=X1,fin=X2]/NP[case=nc,mod=X1,fin=X2]')
     t2 = K.P('S[X]/(S[X]\\NP)') if lang == 'en' else K.P('S[mod=X1,form=X2,fin=X3]/S[mod=X1,form=X2,fin=X3]')
-    for targets in ([t1], [t1, t2], [t2, t1], []):
-        table = {x: list(targets)}
+    import collections
+    for targets, kind in (([t1], dict), ([t1, t2], dict), ([t2, t1], dict), ([], dict), ([t1, t2], 'defaultdict')):
+        # read_params builds the table as a defaultdict(list): a lookup of an absent key must not insert it
+        table = {x: list(targets)} if kind is dict else collections.defaultdict(list, {x: list(targets)})
         st.count('unary_cases')
         try:
             rs = fn(x, table)
@@ -181,7 +203,7 @@ def judge_unary(st, lang, x, others):
             continue
         if got != [K.key(t) for t in targets]:
             st.violation(f'unary/targets/{lang}', f'{x} with table targets {[str(t) for t in targets]} returned {[str(r.cat) for r in rs]}', lang=lang, x=str(x), engine='c14_unary')
-        if table != {x: list(targets)}:
+        if dict(table) != {x: list(targets)}:
             st.violation(f'unary/mutates_table/{lang}', f'{x}: the unary table was modified', lang=lang, x=str(x), engine='c14_unary')
         for o in others:
             if K.key(o) == K.key(x):
@@ -192,6 +214,9 @@ def judge_unary(st, lang, x, others):
             except Exception as e:
                 st.violation(f'unary/raises/{lang}', f'apply_unary_rules({o}) raised {e!r}', lang=lang, x=str(o), engine='c14_unary')
                 continue
+            if dict(table) != {x: list(targets)}:
+                st.violation(f'unary/mutates_table/{lang}', f'looking up {o} changed the unary table (keys {[str(k) for k in table]})', lang=lang, x=str(o), table_key=str(x), engine='c14_unary')
+                table = {x: list(targets)} if kind is dict else collections.defaultdict(list, {x: list(targets)})
             if r2:
                 st.violation(f'unary/leaks/{lang}', f'{o} is not in the table (only {x} is) but got {[str(r.cat) for r in r2]}', lang=lang, x=str(o), table_key=str(x), engine='c14_unary')
 
@@ -242,9 +267,25 @@ def shard_fn(sh):
         _, lang, a, b, lo, hi, _ = sh
         S_ = SOURCES(tier)[lang]
         seen_sets = [('shipped', S_['seen'])]
+        forward = []
         for x in S_[a][lo:hi]:
             for y in S_[b]:
+                LAST_REF[0] = None
                 judge_pair(st, lang, x, y, a, seen_sets)
+                forward.append(LAST_REF[0])
+        if a == 'u2' and (tier == 'thorough' or lo % 36 == 0):
+            # history independence: the same pairs in the opposite order, in a fresh process (module-level state starts empty there)
+            remove_seam()
+            back = core.in_fresh_process(_reverse_sigs, (lang, a, b, lo, hi, tier))
+            install_seam()
+            k = 0
+            for x in S_[a][lo:hi]:
+                for y in S_[b]:
+                    st.count('history_cases')
+                    if forward[k] is not None and back.sets['sigs'] and forward[k] != back.notes[k]:
+                        st.violation(f'call_history_dependent/{lang}', f'({x}, {y}): the result after other calls differs from the result in a fresh process with the calls in the opposite order',
+                                     lang=lang, x=str(x), y=str(y), engine='c14_history', src=a)
+                    k += 1
     elif kind == 'multi':
         _, lang, _ = sh
         S_ = SOURCES(tier)[lang]
